@@ -165,6 +165,28 @@ theorem quoted_argument_is_literal (P : Params) (s : Stack) (t : Str) :
   simp only [resolveArgument, htrim]
   simp [hlast]
 
+/-- the same for a literal written in single quotes -/
+theorem single_quoted_argument_is_literal (P : Params) (s : Stack) (t : Str) :
+    resolveArgument P s ('\'' :: t ++ ['\'']) = .ok (.str t) := by
+  have htrim : trimSpace ('\'' :: t ++ ['\'']) = '\'' :: t ++ ['\''] := by
+    have hq : isSpace '\'' = false := by decide
+    simp [trimSpace, trimLeft, trimRight, hq, List.reverse_append]
+  have hlast : ('\'' :: (t ++ ['\''])).getLast? = some '\'' := by
+    have : '\'' :: (t ++ ['\'']) = ('\'' :: t) ++ ['\''] := rfl
+    rw [this, List.getLast?_append]; simp
+  simp only [resolveArgument, htrim]
+  simp [hlast]
+
+/-- exactly ONE pair of quotes is the literal's own: quote characters at the edges of its text - of either kind - are text
+    (`"'n/a'"` is the five characters `'n/a'`, `'"'` is one double quote, `"'s profile"` begins with an apostrophe) -/
+theorem literal_keeps_its_edge_quotes (P : Params) (s : Stack) :
+    resolveArgument P s "\"'n/a'\"".toList = .ok (.str "'n/a'".toList) ∧
+    resolveArgument P s "'\"'".toList = .ok (.str "\"".toList) ∧
+    resolveArgument P s "\"'s profile\"".toList = .ok (.str "'s profile".toList) ∧
+    resolveArgument P s "'say \"hi\"'".toList = .ok (.str "say \"hi\"".toList) :=
+  ⟨quoted_argument_is_literal P s "'n/a'".toList, single_quoted_argument_is_literal P s "\"".toList,
+   quoted_argument_is_literal P s "'s profile".toList, single_quoted_argument_is_literal P s "say \"hi\"".toList⟩
+
 /-- inside a literal opened by `q` every character other than `q` — the other kind of quote and commas included — belongs to the literal;
     only `q` closes it -/
 theorem literal_scanned_to_its_own_quote (q : Char) (t rest cur : Str) (acc : List Str) (hq : ∀ c ∈ t, c ≠ q) :
